@@ -1171,23 +1171,24 @@ class Machine(Interp):
             t = self.truth(self.eval(s.test, env), s)
             self.assume(t)
         saved_writes = self.writes
-        self.writes = []
+        inner_writes = []
+        self.writes = inner_writes
         try:
             try:
                 self.exec_block(s.body, env)
             except _Continue:
                 pass
             except _Break:
-                self.writes = saved_writes
                 return
             # reached the end of the body: heap writes must be covered by the havoc spec
             allowed = self.loop_write_allow(env, o)
-            for w in self.writes:
+            for w in inner_writes:
                 if not any(w is a for a in allowed):
                     raise Unsupported("heap mutation inside invariant loop %s without frame declaration" % label, s)
         finally:
-            if self.writes is not saved_writes:
-                self.writes = saved_writes
+            self.writes = saved_writes
+            if saved_writes is not None:
+                saved_writes.extend(inner_writes)
         k1 = self.mk(k.t + 1, "int") if is_for else None
         self.check_clauses("%s/inv-step" % label, eval_inv(k1), "inv-step")
         raise _LoopStepDone()
@@ -1209,6 +1210,7 @@ class Machine(Interp):
             o = self.getattr(o, p)
         v = self.fresh(t, path_expr)
         o.fields[parts[-1]] = v
+        self.note_write(o)
         if not hasattr(self, "_loop_allowed"):
             self._loop_allowed = []
         self._loop_allowed.append(o)
@@ -1242,7 +1244,12 @@ class Machine(Interp):
         if isinstance(v, SDict):
             out = []
             for k, x in v.d.items():
-                out.append((str(k), self.truth(x)))
+                xf = self.force(x)
+                if isinstance(xf, SDict):
+                    for lab, t in self.clauses_of(xf):
+                        out.append(("%s.%s" % (k, lab), t))
+                else:
+                    out.append((str(k), self.truth(x)))
             return out
         if isinstance(v, (SList, tuple)):
             items = v.items if isinstance(v, SList) else v
